@@ -1123,3 +1123,7 @@ M("C07-cast-to-short-ignores-width", "C07", "src/cppparser/cppExpression.cxx",
 M("C07-conditional-truncates-condition", "C07", "src/cppparser/cppExpression.cxx",
   "      return r1.as_boolean() ?\n        _u._op._op2->evaluate() : _u._op._op3->evaluate();", "      return r1.as_integer() ?\n        _u._op._op2->evaluate() : _u._op._op3->evaluate();",
   expect="R07.3|")
+
+M("C07-generator-as-integer-of-error-result", "C07", "src/interrogate/interfaceMakerPythonNative.cxx",
+  "            CPPExpression::Result bounds = array_type->_bounds->evaluate();\n            if (bounds._type == CPPExpression::RT_integer) {\n              array_len = bounds.as_integer();\n            }", "            array_len = array_type->_bounds->evaluate().as_integer();",
+  expect="R07.6|InterfaceMakerPythonNative::write_function_instance|as_integer-of-untested-result")
